@@ -42,7 +42,7 @@ class _Cont(Exception):
 
 class Obligation:
     __slots__ = ("name", "kind", "pc", "goal", "text", "line", "status", "detail", "time", "backend", "model",
-                 "zmodel", "ghost", "decisions", "regions")
+                 "zmodel", "ghost", "decisions", "regions", "prefer_bv")
 
     def __init__(self, name, kind, pc, goal, text="", line=0):
         self.name = name
@@ -58,6 +58,7 @@ class Obligation:
         self.model = None
         self.zmodel = None
         self.regions = {}
+        self.prefer_bv = False
         self.ghost = None
         self.decisions = None
 
@@ -109,6 +110,7 @@ class Engine:
         self.assumed = set()
         self.dec_labels = []
         self.finding_terms = {}
+        self.bvcache = {}
 
     # deterministic fresh names per path position so re-execution of a prefix yields identical terms
     def fresh(self, name, sort):
@@ -148,6 +150,7 @@ class Engine:
         ob = Obligation(name, kind, self.pc, goal, text, self.cur_line)
         ob.ghost = dict(self.ghost)
         ob.regions = getattr(self, "finding_terms", None) or {}
+        ob.prefer_bv = bool(self.bvw)
         ob.decisions = list(self.dec_labels)
         self.obligs.append(ob)
         if assume_after:
@@ -375,6 +378,8 @@ class Engine:
                 return v.t
             if v.k == "int":
                 return v.t != 0
+            if v.k == "bv":
+                return v.t != 0
             if v.k == "real":
                 return v.t != 0
             if v.k in ("str", "bytes"):
@@ -458,6 +463,15 @@ class Engine:
             other = b if a is None else a
             return self.is_none(other)
         ka, kb = kind_of(a), kind_of(b)
+        if "bv" in (ka, kb) and ka in ("int", "bool", "bv") and kb in ("int", "bool", "bv"):
+            if ka == "bv" and kb == "bv":
+                return a.t == b.t
+            o, x = (a, b) if ka == "bv" else (b, a)
+            if isinstance(x, int) and not (0 <= x < (1 << o.t.size())):
+                return False
+            if isinstance(x, (int, bool)):
+                return o.t == z3.BitVecVal(int(x), o.t.size())
+            return z3.BV2Int(o.t, False) == zint(x)
         if ka in ("int", "real", "bool") and kb in ("int", "real", "bool"):
             if not isinstance(a, Sym) and not isinstance(b, Sym):
                 return conc(a) == conc(b)
@@ -532,6 +546,8 @@ class Engine:
             if not isinstance(a, Sym) and not isinstance(b, Sym):
                 return a * b
             return Opaque_("str*")
+        if "bv" in (ka, kb) and ka in ("int", "bool", "bv") and kb in ("int", "bool", "bv"):
+            return self.bvarith(op, a, b)
         if ka not in ("int", "real", "bool") or kb not in ("int", "real", "bool"):
             # arithmetic between a number and a non-number: Python raises TypeError
             if (ka in ("str", "bytes", "none") or kb in ("str", "bytes", "none")) or a is None or b is None:
@@ -614,9 +630,98 @@ class Engine:
 
     def bitop(self, op, a, b):
         h = self.reg.bitop_hook
-        if h is None:
-            raise Unsupported("bit operation without a bit-operation theory selected")
-        return h(self, op, a, b)
+        if h is not None:
+            return h(self, op, a, b)
+        if self.bvw:
+            return self.bvarith(op, a, b)
+        raise Unsupported("bit operation without a bit-operation theory selected (line %d)" % self.cur_line)
+
+    bvw = None
+
+    def tobv(self, v):
+        """non-negative Python int as a bit-vector of the contract's width; the value must fit (obligation)"""
+        w = self.bvw
+        if isinstance(v, Sym) and v.k == "bv":
+            return v.t
+        if isinstance(v, bool):
+            return z3.BitVecVal(1 if v else 0, w)
+        if isinstance(v, int):
+            if v < 0 or v >= (1 << w):
+                raise Unsupported("constant %d outside the bit-vector width %d" % (v, w))
+            return z3.BitVecVal(v, w)
+        zi = z3.simplify(zint(v))
+        key = ("tobv", zi.get_id())
+        if key in self.bvcache:
+            return self.bvcache[key]
+        st = self._int_ite_to_bv(zi, w)
+        if st is not None:
+            self.bvcache[key] = st
+            return st
+        if not self.spec:
+            self.oblige("safe", z3.And(zi >= 0, zi < (1 << (w - 1))), "operand fits the %d-bit view" % w)
+        t = z3.Int2BV(zi, w)
+        # range facts known at the integer level are restated at the bit-vector level (derived, not assumed)
+        for bound in (255, 65535, (1 << 32) - 1):
+            if not self.feasible(z3.Or(zi > bound, zi < 0)):
+                self.assume(z3.ULE(t, z3.BitVecVal(bound, w)))
+                break
+        self.bvcache[key] = t
+        return t
+
+    def _int_ite_to_bv(self, t, w, depth=0):
+        """If-trees over small non-negative integer literals convert structurally (no int<->bv bridge)"""
+        if z3.is_int_value(t):
+            v = t.as_long()
+            return z3.BitVecVal(v, w) if 0 <= v < (1 << (w - 1)) else None
+        if z3.is_app_of(t, z3.Z3_OP_ITE) and depth < 6:
+            a = self._int_ite_to_bv(t.arg(1), w, depth + 1)
+            b = self._int_ite_to_bv(t.arg(2), w, depth + 1)
+            if a is not None and b is not None:
+                return z3.If(t.arg(0), a, b)
+        if z3.is_app_of(t, z3.Z3_OP_BV2INT):
+            x = t.arg(0)
+            if x.size() == w:
+                return x
+        return None
+
+    def bvarith(self, op, a, b):
+        w = self.bvw
+        if not w:
+            raise Unsupported("bit-vector arithmetic without a width (contract bitvec=...)")
+        x, y = self.tobv(a), self.tobv(b)
+        ob = (lambda g, t: None) if self.spec else (lambda g, t: self.oblige("no-wrap", g, t))
+        if isinstance(op, ast.BitAnd):
+            return Sym(x & y, "bv")
+        if isinstance(op, ast.BitOr):
+            return Sym(x | y, "bv")
+        if isinstance(op, ast.BitXor):
+            return Sym(x ^ y, "bv")
+        if isinstance(op, ast.LShift):
+            ob(z3.And(z3.ULT(y, w), z3.LShR(x << y, y) == x), "<< does not shift bits out of the %d-bit view" % w)
+            return Sym(x << y, "bv")
+        if isinstance(op, ast.RShift):
+            ob(z3.ULT(y, w), ">> amount below the width")
+            return Sym(z3.LShR(x, y), "bv")
+        if isinstance(op, ast.Add):
+            ob(z3.BVAddNoOverflow(x, y, False), "+ does not wrap")
+            return Sym(x + y, "bv")
+        if isinstance(op, ast.Sub):
+            ob(z3.UGE(x, y), "- does not go negative")
+            return Sym(x - y, "bv")
+        if isinstance(op, ast.Mult):
+            ob(z3.BVMulNoOverflow(x, y, False), "* does not wrap")
+            return Sym(x * y, "bv")
+        if isinstance(op, ast.FloorDiv):
+            self.nonzero_bv(y)
+            return Sym(z3.UDiv(x, y), "bv")
+        if isinstance(op, ast.Mod):
+            self.nonzero_bv(y)
+            return Sym(z3.URem(x, y), "bv")
+        raise Unsupported("bit-vector operator %s" % type(op).__name__)
+
+    def nonzero_bv(self, y):
+        if not self.spec:
+            self.oblige("safe", y != 0, "divisor != 0")
 
     def compare(self, op, a, b):
         if isinstance(op, ast.Is):
@@ -634,6 +739,9 @@ class Engine:
         a = self.unopt(a, "left operand of comparison")
         b = self.unopt(b, "right operand of comparison")
         ka, kb = kind_of(a), kind_of(b)
+        if "bv" in (ka, kb) and ka in ("int", "bool", "bv") and kb in ("int", "bool", "bv"):
+            x, y = self.tobv(a), self.tobv(b)
+            return {ast.Lt: z3.ULT(x, y), ast.LtE: z3.ULE(x, y), ast.Gt: z3.UGT(x, y), ast.GtE: z3.UGE(x, y)}[type(op)]
         if ka in ("int", "real", "bool") and kb in ("int", "real", "bool"):
             if not isinstance(a, Sym) and not isinstance(b, Sym):
                 a, b = conc(a), conc(b)
